@@ -939,7 +939,9 @@ Definition run_cb (w : world) (c : cb) : world :=
   | Some _ => w
   | None =>
       match c with
-      | CbResume p => resume FUEL w p
+      (* a resume callback always names an existing process; the default record of an index that does not
+         exist is never run *)
+      | CbResume p => if (p <? length (wprocs w))%nat then resume FUEL w p else crashw w CFuel
       | CbCheck c => w <| wk := check (wk w) c |>
       | CbResTrigGet n =>
           match res_trig_get (wk w) (nres (get_node w n)) with
